@@ -23,6 +23,7 @@ import (
 	"github.com/lightninglabs/neutrino"
 	"github.com/lightninglabs/neutrino/banman"
 	"github.com/lightninglabs/neutrino/headerfs"
+	"verifharness/rejcorpus"
 	"verifharness/tr"
 )
 
@@ -179,6 +180,132 @@ func DriveC15(t *tr.W, thorough bool) {
 		for i, p := range s.Peers {
 			t.Op(fmt.Sprintf("saw %d", i), fmt.Sprintf("invtx %d", min1(atomic.LoadInt32(&p.GotInvTx))))
 		}
+		t.Hit("c15." + name)
+		stopLine(t, s, name)
+		s.Cleanup()
+	}
+	c15Corpus(t, rng, thorough)
+}
+
+// c15Corpus: the whole path reject message -> pushtx.ParseBroadcastError ->
+// sendTransaction verdict -> Broadcaster.Broadcast -> rebroadcast on the next
+// block, with scripted peers that answer a transaction with realistic btcd /
+// bitcoind reject messages (package rejcorpus; each labelled by hand with its
+// ground-truth class in the property's vocabulary).  The Lean driver evaluates
+// the property on the labels: all repliers have it in their mempool (or accept)
+// => SendTransaction succeeds and the tx is announced again after the next
+// block; invalid share >= threshold => SendTransaction fails; a failed
+// broadcast is not announced again.
+func c15Corpus(t *tr.W, rng *rand.Rand, thorough bool) {
+	pick := func(class, node string, dupOnly bool) rejcorpus.Entry {
+		var es []rejcorpus.Entry
+		for _, e := range rejcorpus.OfClass(class) {
+			if (node == "" || e.Node == node) && (!dupOnly || e.Code == wire.RejectDuplicate) {
+				es = append(es, e)
+			}
+		}
+		return es[rng.Intn(len(es))]
+	}
+	acc := rejcorpus.Entry{Class: "accept"}
+	mixes := [][]rejcorpus.Entry{
+		{pick("mempool", "btcd", false), pick("mempool", "btcd", false)},
+		{pick("invalid", "btcd", true), pick("invalid", "btcd", true), acc},
+		{pick("mempool", "", false), acc, pick("mempool", "", false)},
+		{pick("invalid", "", false), acc, acc},
+		{pick("confirmed", "btcd", false), pick("confirmed", "", false)},
+	}
+	extra := 1 * tr.EnvInt("VERIF_BUDGET", 1)
+	if thorough {
+		extra = 12 * tr.EnvInt("VERIF_BUDGET", 1)
+	}
+	classes := []string{"accept", "mempool", "mempool", "invalid", "invalid", "confirmed", "fee", "other"}
+	for i := 0; i < extra; i++ {
+		var m []rejcorpus.Entry
+		for k := 2 + rng.Intn(3); k > 0; k-- {
+			c := classes[rng.Intn(len(classes))]
+			if c == "accept" {
+				m = append(m, acc)
+			} else {
+				m = append(m, pick(c, "", false))
+			}
+		}
+		mixes = append(mixes, m)
+	}
+	for _, m := range mixes {
+		var bs []Behaviour
+		var names []string
+		for _, e := range m {
+			if e.Class == "accept" {
+				bs = append(bs, Behaviour{Kind: "honest", Tx: "accept"})
+			} else {
+				bs = append(bs, Behaviour{Kind: "honest", Tx: "reject-with", RejCode: e.Code, RejReason: e.Reason})
+			}
+			names = append(names, e.Class)
+		}
+		name := "corpus:" + strings.Join(names, ",")
+		sc := Scenario{Name: name, Len: 10 + rng.Intn(10), Peers: bs, Barrier: true}
+		t.Case("c15 corpus npeers %d", len(bs))
+		s, err := New(sc, rng, t.Op)
+		if err != nil {
+			t.Op("setup", "err "+err.Error())
+			continue
+		}
+		// fill the placeholders other than the transaction's own id now, so that the trace shows them
+		for i, e := range m {
+			if e.Class != "accept" {
+				s.Peers[i].B.RejReason = rejcorpus.Render(e, rng, "%TX%")
+			}
+		}
+		peerLines(t, s)
+		if err := s.Start(); err != nil {
+			t.Op("start", "err "+err.Error())
+			s.Cleanup()
+			continue
+		}
+		ok := s.waitFor(6*time.Second, func(o Obs) bool { return s.converged(o) && len(o.Conn) == len(s.Peers) })
+		t.Op("waitsync", map[bool]string{true: "ok", false: "timeout"}[ok])
+		tx := testTx(rng)
+		for i, e := range m {
+			if e.Class != "accept" {
+				t.Op(fmt.Sprintf("label %d %s", i, e.Class), fmt.Sprintf("%s %s %s", e.Node, e.Code,
+					strings.ReplaceAll(s.Peers[i].B.RejReason, "%TX%", tx.TxHash().String())))
+				t.Hit("c15.corpus." + e.Class + "." + e.Node)
+			}
+		}
+		res := make(chan error, 1)
+		go func() { res <- s.CS.SendTransaction(tx) }()
+		select {
+		case err := <-res:
+			if err == nil {
+				t.Op("sendtx", "ok")
+			} else {
+				t.Op("sendtx", "err")
+				t.Line("# sendtx error: %s", sanitize(err.Error()))
+			}
+		case <-time.After(10 * time.Second):
+			t.Op("sendtx", "HANG")
+		}
+		// a new block: every pending transaction is announced again
+		nt := s.W.Extend(s.W.Honest(), 1, "t")
+		s.W.SetHonest(nt)
+		t.Op("grow 1", fmt.Sprintf("honest %d:%s", nt.Height, nt.ID))
+		s.announce(false)
+		seen, start := false, time.Now()
+		var connected time.Time
+		for time.Since(start) < 5*time.Second && !seen {
+			time.Sleep(10 * time.Millisecond)
+			for _, p := range s.Peers {
+				seen = seen || atomic.LoadInt32(&p.GotInvTx) >= 2
+			}
+			if connected.IsZero() {
+				if s.converged(s.Observe()) {
+					connected = time.Now()
+				}
+			} else if time.Since(connected) > 700*time.Millisecond {
+				break
+			}
+		}
+		t.Op("rebroadcast", map[bool]string{true: "seen", false: "not-seen"}[seen])
 		t.Hit("c15." + name)
 		stopLine(t, s, name)
 		s.Cleanup()
